@@ -1146,6 +1146,30 @@ func (x *Exec) purePattern(name string) (string, bool) {
 
 // lookupSig resolves "(pkg.Type).Method" or "pkg.Func" to a signature using type information only.
 func (x *Exec) lookupSig(name string) *types.Signature {
+	if sig := x.lookupSigDecl(name); sig != nil {
+		return sig
+	}
+	// a library function whose package is not part of the SSA program: take the signature from a
+	// call site in the function under contract
+	if x.Top != nil {
+		fns := []*ssa.Function{x.Top}
+		fns = append(fns, x.Top.AnonFuncs...)
+		for _, fn := range fns {
+			for _, b := range fn.Blocks {
+				for _, in := range b.Instrs {
+					if c, ok := in.(*ssa.Call); ok {
+						if n := staticCalleeName(c.Common()); n == name {
+							return c.Common().Signature()
+						}
+					}
+				}
+			}
+		}
+	}
+	return nil
+}
+
+func (x *Exec) lookupSigDecl(name string) *types.Signature {
 	findPkg := func(path string) *types.Package {
 		for _, p := range x.P.SSA.AllPackages() {
 			if p.Pkg.Path() == path || p.Pkg.Path() == ModPath+"/"+path {
@@ -1386,7 +1410,11 @@ func (x *Exec) siteOrdinal(fn *ssa.Function, at ssa.Instruction, pat string) int
 			if cc == nil {
 				continue
 			}
-			if name := staticCalleeName(cc); name != "" && matchCallee(pat, name) {
+			name := staticCalleeName(cc)
+			if name == "" && !cc.IsInvoke() {
+				name = "<dynamic>"
+			}
+			if name != "" && matchCallee(pat, name) {
 				sites = append(sites, site{in, in.Pos(), n})
 			}
 		}
